@@ -522,6 +522,16 @@ def process_unit(unit, seed, want_canary=True, prop=None):
         mm = module_map(text)
         out['obligations'] = [o for o in out['obligations'] if mm.get(o['line'], '') in mods]
     out['assumption_sites'] = scan_assumptions(text)
+    # the templates mark every assumed stub / function left outside the contracts with a comment: list them verbatim
+    notes = []
+    tl = text.split('\n')
+    for i, l in enumerate(tl):
+        m = re.search(r'(\[?ASSUMED[^\n]*|NOT UNDER CONTRACT[^\n]*)', l)
+        if m and l.lstrip().startswith('//'):
+            nxt = next((x.strip() for x in tl[i + 1:i + 6] if re.search(r'\bfn\b', x)), '')
+            fn = FN_RE.search(nxt)
+            notes.append((m.group(1).strip() + ((' -> fn ' + fn.group(1)) if fn else ''))[:260])
+    out['assumption_notes'] = sorted(set(notes))
     out['stubbed'] = [dict(function=r.key, file=r.file, props=sorted(set(r.props) | (set(r.implicit) or {'C17', 'C18'})), reason=r.stub_reason) for r in regions if r.stubbed]
     return out
 
@@ -684,7 +694,7 @@ def check_property(prop, tier, seed, replay=None):
             exhaustive=False,
             bounded_standins=bounded,
         ),
-        assumptions=TRUSTED_BASE + pinfo.get('assumptions', []),
+        assumptions=TRUSTED_BASE + pinfo.get('assumptions', []) + sorted({'stub/assumption marked in the templates (%s): %s' % (r['unit'].split('_')[0], n) for r in results for n in r.get('assumption_notes', [])}),
         wall_s=round(time.time() - t0, 2),
         violations=len(real),
     )
